@@ -12,8 +12,11 @@ EXTENDS Naturals, Sequences, TLC, Json, IOUtils
 
 Rec == ndJsonDeserialize(IOEnv.TRACE)
 AllDevs == {"D_new_compressor_revname_rest", "D_new_compressor_ptr_overflow",
-            "D_new_builder_failed_push_compressor", "D_new_builder_truncate_counts"}
+            "D_new_builder_failed_push_compressor", "D_new_builder_truncate_counts",
+            "D_new_compressor_partial_match_children"}
 OpenDevs == {d \in AllDevs : d \in DOMAIN IOEnv}
+\* deviations under which the new builder writes a name that reads back wrong
+WrongNameDevs == {"D_new_compressor_revname_rest", "D_new_compressor_partial_match_children"} \cap OpenDevs
 
 W == INSTANCE Wire WITH Dev <- {}
 
@@ -39,16 +42,16 @@ T_Built ==
   /\ LET ok == SpecReads(Rec[l].m, Rec[l].items) IN
      /\ Rec[l].old_reads = ok
      /\ Rec[l].new_reads = ok
-     /\ (IF ok \/ (Rec[l].side = "new" /\ "D_new_compressor_revname_rest" \in OpenDevs) THEN TRUE ELSE FALSE)
-     /\ used' = IF ok THEN used ELSE used \cup {"D_new_compressor_revname_rest"}
+     /\ (IF ok \/ (Rec[l].side = "new" /\ WrongNameDevs # {}) THEN TRUE ELSE FALSE)
+     /\ used' = IF ok THEN used ELSE used \cup WrongNameDevs
 
 T_Big ==
   /\ IsEv("bigbuilt")
   /\ Rec[l].old_reads = Rec[l].new_reads
   /\ \/ Rec[l].built = "ok" /\ Rec[l].old_reads /\ used' = used
      \/ /\ Rec[l].built = "ok" /\ ~Rec[l].old_reads /\ Rec[l].side = "new"
-        /\ "D_new_compressor_revname_rest" \in OpenDevs
-        /\ used' = used \cup {"D_new_compressor_revname_rest"}
+        /\ WrongNameDevs # {}
+        /\ used' = used \cup WrongNameDevs
      \/ /\ Rec[l].built = "panic" /\ Rec[l].side = "new"
         /\ "D_new_compressor_ptr_overflow" \in OpenDevs
         /\ used' = used \cup {"D_new_compressor_ptr_overflow"}
